@@ -1,7 +1,7 @@
-From FV Require Import Base.Prelude Model.Shell Proofs.ShellProofs gen.Runner_atlas_r21.
+From FV Require Import Base.Prelude Model.Shell Proofs.ShellProofs gen.Runner_cms_r7.
 From Coq Require Import Lia.
 
-Definition B : backend := mkB pkg_atlas slots_atlas run_dir_atlas ["cmake"; "make"] "python" (fun c => c).
+Definition B : backend := mkB pkg_cms slots_cms run_dir_cms ["mkedanlzr"; "scram"] "cmsRun" converted.
 
 Definition base (cfg : config) (f : fs) (args : list string) : state :=
   match exec_cmds (fun _ => false) "" script_pre (init_state cfg f args) with
@@ -26,13 +26,13 @@ Lemma parse_summary : forall o n cfg f args,
   if snd sb then exec_cmds o n script_rest (after_loop cfg f args (fst sb) (snd ge))
   else Exit 10 (mk_of (base cfg f args) (fst sb)).
 Proof.
-  intros o n [fld fll rel ent cal cvs] f args.
+  intros o n [fld fll ent rel cvs cal] f args.
   unfold script. rewrite exec_capp.
-  assert (Hpre : exec_cmds o n script_pre (init_state (mkConfig fld fll rel ent cal cvs) f args) =
-                 Cont (match exec_cmds (fun _ => false) "" script_pre (init_state (mkConfig fld fll rel ent cal cvs) f args) with Cont s => s | Exit _ s => s end))
+  assert (Hpre : exec_cmds o n script_pre (init_state (mkConfig fld fll ent rel cvs cal) f args) =
+                 Cont (match exec_cmds (fun _ => false) "" script_pre (init_state (mkConfig fld fll ent rel cvs cal) f args) with Cont s => s | Exit _ s => s end))
     by (vm_compute; reflexivity).
   rewrite Hpre. rewrite exec_cmds_cons.
-  set (st1 := match exec_cmds (fun _ => false) "" script_pre (init_state (mkConfig fld fll rel ent cal cvs) f args) with Cont s => s | Exit _ s => s end).
+  set (st1 := match exec_cmds (fun _ => false) "" script_pre (init_state (mkConfig fld fll ent rel cvs cal) f args) with Cont s => s | Exit _ s => s end).
   change (exec_cmd o n (CGetopts script_os script_var script_arms) st1) with
     (match run_events script_var (exec_arms o n script_arms) (fst (getopts_events script_os st1.(pos)))
              (set_var (set_var st1 script_var "") "OPTARG" "") with
@@ -41,11 +41,11 @@ Proof.
      end).
   assert (Hpos : st1.(pos) = args) by (vm_compute; reflexivity).
   rewrite Hpos.
-  assert (Hb : set_var (set_var st1 script_var "") "OPTARG" "" = mk_of (base (mkConfig fld fll rel ent cal cvs) f args) p0)
+  assert (Hb : set_var (set_var st1 script_var "") "OPTARG" "" = mk_of (base (mkConfig fld fll ent rel cvs cal) f args) p0)
     by (vm_compute; reflexivity).
   rewrite Hb.
   change script_os with "d:o:cr".
-  rewrite (loop_sum o n script_var script_arms (mk_of (base (mkConfig fld fll rel ent cal cvs) f args))).
+  rewrite (loop_sum o n script_var script_arms (mk_of (base (mkConfig fld fll ent rel cvs cal) f args))).
   - cbv zeta. destruct (snd (summ p0 (fst (getopts_events "d:o:cr" args)))); reflexivity.
   - intros s a. unfold arm_goes; vm_compute; reflexivity.
   - intros s a. unfold arm_goes; vm_compute; reflexivity.
@@ -96,13 +96,13 @@ Proof. intros. apply after_parse. Qed.
 (* the state in which the statements after the option loop start when nothing is left on the command line *)
 Definition ST (cfg : config) (W : fs) (args : list string) (s : psum) (k0 : nat) : state :=
   upd_last (upd_pos (after_loop cfg W args s k0) []) 0.
-Definition NB : nat := 28.      (* more than the steps of the longest run *)
-Definition TB : nat := 21.      (* steps before this index do not depend on -d, -o or the destination *)
+Definition NB : nat := 12.      (* more than the steps of the longest run *)
+Definition TB : nat := 6.      (* steps before this index do not depend on -d, -o or the destination *)
 
 (* the environment switches a run reads before anything else *)
-Definition all_env (cal0 : bool) (P : bool -> bool -> Prop) : Prop := all_b (fun rel => P rel cal0).
+Definition all_env (cal0 : bool) (P : bool -> bool -> Prop) : Prop := all_b (fun rel => all_b (fun cal => P rel cal)).
 Lemma all_env_elim : forall cal0 P, all_env cal0 P -> forall rel, P rel cal0.
-Proof. intros cal0 P H rel. exact (all_b_elim _ H rel). Qed.
+Proof. intros cal0 P H rel. exact (all_b_elim _ (all_b_elim _ H rel) cal0). Qed.
 
 Definition olist : list (option string) := None :: map Some dest_words.
 Definition dest_ix (o' : option string) : nat :=
@@ -121,20 +121,20 @@ Variables (fld fll ent cal cvs : bool) (ov1 ov2 ov3 d o' : option string) (args 
 (* -r in a package that was never built; -c alone; the build steps of a full run: none of these reads the
    -d / -o words, the file list or the destination *)
 Lemma fresh_r : all_env cal (fun rel cal => all_b (fun c =>
-  let cfg := mkConfig fld fll rel ent cal cvs in let W := fresh_world B cfg ov1 ov2 ov3 in
+  let cfg := mkConfig fld fll ent rel cvs cal in let W := fresh_world B cfg ov1 ov2 ov3 in
   caseP B c true d o' W n rest' (ST cfg W args (mkP c true d o' x y) k0) 3)).
 Proof. solve_table. Qed.
 Lemma fresh_c : all_env cal (fun rel cal =>
-  let cfg := mkConfig fld fll rel ent cal cvs in let W := fresh_world B cfg ov1 ov2 ov3 in
-  caseP B true false d o' W n rest' (ST cfg W args (mkP true false d o' x y) k0) 24).
+  let cfg := mkConfig fld fll ent rel cvs cal in let W := fresh_world B cfg ov1 ov2 ov3 in
+  caseP B true false d o' W n rest' (ST cfg W args (mkP true false d o' x y) k0) 9).
 Proof. solve_table. Qed.
 Lemma fresh_ff_early : all_env cal (fun rel cal =>
-  let cfg := mkConfig fld fll rel ent cal cvs in let W := fresh_world B cfg ov1 ov2 ov3 in
+  let cfg := mkConfig fld fll ent rel cvs cal in let W := fresh_world B cfg ov1 ov2 ov3 in
   all_lt TB (fun k => okK B false false d n W k (obs B W o' (run_script (single k) n rest' (ST cfg W args (mkP false false d o' x y) k0))))).
 Proof. solve_table. Qed.
 Definition ff_late_entry (rel fld' fll' cal' pv dsel : bool) (oi : nat) : Prop :=
   let o1 := nth oi olist None in let d1 := dsel_of dsel a f' in
-  let cfg := mkConfig fld' fll' rel ent cal' cvs in
+  let cfg := mkConfig fld' fll' ent rel cvs cal' in
   let W := fresh_world B cfg (slot_val 0 o1 pv vt ov1) (slot_val 1 o1 pv vt ov2) (slot_val 2 o1 pv vt ov3) in
   let st := ST cfg W args (mkP false false d1 o1 x y) k0 in
   okN B false false d1 n W NB (obs B W o1 (run_script none n rest' st)) /\
@@ -146,7 +146,7 @@ Proof. solve_table. Qed.
 End FreshTables.
 
 Definition ff_late_entry_goal fld fll rel ent cal cvs v1 v2 v3 d o' args x y n k0 : Prop :=
-  let cfg := mkConfig fld fll rel ent cal cvs in let W := fresh_world B cfg v1 v2 v3 in
+  let cfg := mkConfig fld fll ent rel cvs cal in let W := fresh_world B cfg v1 v2 v3 in
   let st := ST cfg W args (mkP false false d o' x y) k0 in
   okN B false false d n W NB (obs B W o' (run_script none n rest' st)) /\
   all_lt (NB - TB) (fun i => okK B false false d n W (TB + i) (obs B W o' (run_script (single (TB + i)) n rest' st))).
@@ -161,7 +161,7 @@ Ltac use_late H rel fld fll cal pv dsel oi :=
 
 Lemma fresh_ff : forall fld fll rel ent cal cvs v1 v2 v3 d o' args x y n k0,
   plain_d d -> known_o o' ->
-  let cfg := mkConfig fld fll rel ent cal cvs in let W := fresh_world B cfg v1 v2 v3 in
+  let cfg := mkConfig fld fll ent rel cvs cal in let W := fresh_world B cfg v1 v2 v3 in
   caseP B false false d o' W n rest' (ST cfg W args (mkP false false d o' x y) k0) NB.
 Proof.
   intros fld fll rel ent cal cvs v1 v2 v3 d o' args x y n k0 Hd Ho. cbv zeta.
@@ -201,7 +201,7 @@ Lemma master_fresh : forall cfg v1 v2 v3 args o n,
   match classify args with Flags _ _ d o' => plain_d d /\ known_o o' | _ => True end ->
   spec B (classify args) (fresh_world B cfg v1 v2 v3) o n (invoke script cfg (fresh_world B cfg v1 v2 v3) args o n).
 Proof.
-  intros [fld fll rel ent cal cvs] v1 v2 v3 args o n. rewrite after_parse'. unfold classify. cbv zeta.
+  intros [fld fll ent rel cvs cal] v1 v2 v3 args o n. rewrite after_parse'. unfold classify. cbv zeta.
   generalize (snd (getopts_events "d:o:cr" args)). intros k0.
   generalize (summ p0 (fst (getopts_events "d:o:cr" args))). intros [s ok]. cbn [fst snd].
   destruct ok.
@@ -209,14 +209,14 @@ Proof.
   destruct (skipn k0 args) as [|a l].
   2:{ intros _. split; [|split]; vm_compute; reflexivity. }
   destruct s as [c r d o' x y]. cbn [pc pr pd po]. intros [Hd Ho].
-  change (upd_last (upd_pos (after_loop (mkConfig fld fll rel ent cal cvs) (fresh_world B (mkConfig fld fll rel ent cal cvs) v1 v2 v3) args (mkP c r d o' x y) k0) []) 0)
-    with (ST (mkConfig fld fll rel ent cal cvs) (fresh_world B (mkConfig fld fll rel ent cal cvs) v1 v2 v3) args (mkP c r d o' x y) k0).
+  change (upd_last (upd_pos (after_loop (mkConfig fld fll ent rel cvs cal) (fresh_world B (mkConfig fld fll ent rel cvs cal) v1 v2 v3) args (mkP c r d o' x y) k0) []) 0)
+    with (ST (mkConfig fld fll ent rel cvs cal) (fresh_world B (mkConfig fld fll ent rel cvs cal) v1 v2 v3) args (mkP c r d o' x y) k0).
   destruct r.
   - apply spec_from_caseP with (N := 3); [apply ST_steps|].
     pose proof (fresh_r fld fll ent cal cvs v1 v2 v3 d o' args x y n k0) as H.
     apply all_env_elim with (rel := rel) in H. apply all_b_elim with (b := c) in H. exact H.
   - destruct c.
-    + apply spec_from_caseP with (N := 24); [apply ST_steps|].
+    + apply spec_from_caseP with (N := 9); [apply ST_steps|].
       pose proof (fresh_c fld fll ent cal cvs v1 v2 v3 d o' args x y n k0) as H.
       apply all_env_elim with (rel := rel) in H. exact H.
     + apply spec_from_caseP with (N := NB); [apply ST_steps|]. apply fresh_ff; assumption.
